@@ -12,4 +12,6 @@ func emitAll(repo string) {
 	emitMapSites(repo)
 	// C01: tmpl.go (tmplSyms, tmplHeaders)
 	emitTmpl(repo)
+	// rest area (C06): restfacts.go (restDefaultHeaders, restBodyVerbs)
+	emitRestFacts(repo)
 }
